@@ -137,6 +137,10 @@ def attribute(ev, labels, flags, after_crash=False):
     res = ev.get("res")
     if after_crash:
         return {"C04"}
+    if ev.get("sigdup") and res not in ("panic", "timeout"):
+        # legacy transaction identity on mainnet below 929 000 (known finding D17): two signers, one hash; everything this run
+        # shows from here on is a lookup pointing at the wrong one of the two
+        return {"C06"}
     if res in ("panic", "timeout"):
         props.add("C09")
     if kind == "Reorg":
@@ -182,6 +186,8 @@ def attribute(ev, labels, flags, after_crash=False):
 
 
 def signature(ev, labels, flags, prior=None):
+    if ev.get("sigdup") and ev.get("res") not in ("panic", "timeout"):
+        return "legacy-id:sighash-collision"
     q = ""
     tx = ev.get("tx")
     if isinstance(tx, dict):
